@@ -89,6 +89,11 @@ type access struct {
 	// the value was copied into a local (`l := x.f`): lock states at the uses of that local
 	snap     bool
 	snapUses []state
+	// for the run-time cross-check of the lockset claims (-instrument): start of the statement (direct
+	// element of a block / case body) that contains the access, and whether the base variable is
+	// declared before that statement
+	stmtPos token.Pos
+	baseOK  bool
 }
 
 type edge struct {
@@ -212,6 +217,7 @@ func main() {
 	selfN := flag.Int("selftest", 0, "write N random fact tables (ops.txt/impl.txt/stats.txt) to -out and exit")
 	selfSeed := flag.Uint64("seed", 1, "selftest seed")
 	selfOut := flag.String("out", "", "selftest output directory")
+	instOut := flag.String("instrument", "", "write copies of the source files with run-time checks of the lockset claims here")
 	flag.Parse()
 	if *selfN > 0 {
 		if err := selftest(*selfN, *selfSeed, *selfOut); err != nil {
@@ -283,7 +289,12 @@ func main() {
 			fatal(err)
 		}
 	}
-	if *jsonOut == "" && *leanOut == "" {
+	if *instOut != "" {
+		if err := a.instrument(*instOut, res); err != nil {
+			fatal(err)
+		}
+	}
+	if *jsonOut == "" && *leanOut == "" && *instOut == "" {
 		res.summary(os.Stdout)
 	}
 }
@@ -498,6 +509,7 @@ type walker struct {
 	snap       map[types.Object]*access // local holding a copy of a cleared field -> the read that made it
 	nilIdent   map[*ast.Ident]bool      // identifiers that are operands of ==/!= nil
 	deferUnl   map[lockKey]bool         // mutexes a `defer ...Unlock()` releases when the function returns
+	curStmt    ast.Stmt                 // the statement of the enclosing block's list being walked
 	alias      map[types.Object]string  // local `r := runner` (pointer to a tracked struct): r is named runner
 }
 
@@ -680,7 +692,10 @@ func merge(states []state) state {
 
 // stmts walks a statement list; returns true if control cannot fall out of its end
 func (w *walker) stmts(list []ast.Stmt) bool {
+	saved := w.curStmt
+	defer func() { w.curStmt = saved }()
 	for _, s := range list {
+		w.curStmt = s
 		if w.stmt(s) {
 			return true
 		}
@@ -1396,6 +1411,10 @@ func (w *walker) selector(e *ast.SelectorExpr, mode string) {
 func (w *walker) record(pos token.Pos, cls, owner, kind, base string, baseObj types.Object, init, atomic bool) {
 	ac := &access{u: w.u, line: w.a.fset.Position(pos).Line, cls: cls, owner: owner, kind: kind, base: base,
 		st: w.st.clone(), init: init, atomic: atomic, origin: -1, use: !w.curNil}
+	if w.curStmt != nil {
+		ac.stmtPos = w.curStmt.Pos()
+		ac.baseOK = baseObj != nil && baseObj.Pos() < ac.stmtPos
+	}
 	if baseObj != nil {
 		if w.fresh[baseObj] {
 			ac.init = true
